@@ -53,7 +53,17 @@ theorem T_a64m_install_exec (mode : Mode) (func fake jit : Nat) (saved : List Na
   rw [run_bind_ok _ _ _ _ _ (T_a64m_apply_branch_patch mode func jit 20 saved _ (by omega) hj), run_pure]
   simp
 
+/-- C17 on macOS, read off the translated installation: the bytes copied to the trampoline are followed, before
+    anything else is written, by an instruction-cache invalidation of exactly the trampoline's range -/
+theorem T_c17_macos_trampoline (fake jit : Nat) :
+    ∃ pre post, macInjectLog (A64.wordsToBytes (A64.tramp fake)) jit =
+      pre ++ [("copy_nonoverlapping", [Val.bs (A64.wordsToBytes (A64.tramp fake)), Val.n (Int.ofNat jit), Val.n (Int.ofNat (A64.wordsToBytes (A64.tramp fake)).length)]),
+              ("pthread_jit_write_protect_np", [Val.n 1]),
+              ("sys_icache_invalidate", [Val.n (Int.ofNat jit), Val.n (Int.ofNat (A64.wordsToBytes (A64.tramp fake)).length)])] ++ post :=
+  ⟨[("pthread_jit_write_protect_np", [Val.n 0])], [("asm", [])], rfl⟩
+
 end Inj.Tie
 
 #print axioms Inj.Tie.T_a64m_read_bytes
 #print axioms Inj.Tie.T_a64m_install_exec
+#print axioms Inj.Tie.T_c17_macos_trampoline
